@@ -33,6 +33,12 @@ func genC15(p *Plan, r *RNG) {
 			p.IOFaults = append(p.IOFaults, IOFault{M: Match{Sock: "relay", Op: "Accept", Nth: r.Range(1, 4)}, Do: "error"})
 			td = Op{Kind: "wait", At: gap(ms)}
 		}
+		if r.Chance(1, 3) {
+			// closing the relay listener reports an error (it is closed all the same): whatever
+			// else the allocation owns - peer connections, their timers, the pipes - goes too
+			p.IOFaults = append(p.IOFaults, IOFault{M: Match{Sock: "relay", Op: "Close", Nth: r.Range(1, 2)}, Do: "error"})
+			p.Flavor += "+relay-close-err"
+		}
 		ops := append([]Op{}, p.Ops[:cut]...)
 		ops = append(ops, td)
 		p.Ops = append(ops, p.Ops[cut:]...)
